@@ -83,6 +83,13 @@ def run(tier, seed, replay=None):
     rich["collide_only"] = H + GL + "table(pos) pass(1) {CollisionFix = 2} endpass; endtable;\n"
     rich["collide_two"] = H + GL + "table(sub) cA > cB; endtable;\ntable(pos) pass(1) {CollisionFix = 1} endpass; pass(2) {CollisionFix = 2; AutoKern = 1} cA {collision.flags = 3} cB; endpass; pass(3) cB {shift.y = 3m}; endpass; endtable;\n"
     rich["sparse_passes"] = H + GL + "table(sub) pass(2) cA > cB; endpass; pass(5) cB > cA / cA _; endpass; endtable;\ntable(pos) pass(3) cA {kern.x = 4m} cB; endpass; endtable;\n"
+    # glyph metrics inside attachment points (PushAttToGlyphMetric for `at`, PushGlyphMetric for `with`), point() attributes,
+    # attachment with explicit coordinates, and metrics of another slot in an attribute value
+    rich["attach_at_metrics"] = H + GL + ("table(pos) cA cB {attach {to = @1; at {x = advancewidth / 2; y = ascent}; with {x = bb.width / 2; y = 0m}}} / _ ^ _;\n"
+                                         "cB cA {attach {to = @1; at {x = bb.right; y = bb.top + ascent}; with {x = bb.left; y = bb.bottom}}; shift.x = @1.advancewidth / 4} / _ _; endtable;\n")
+    # the `descent` metric (known finding: libgraphite2 1.3.14 refuses metric 11 wherever it is used)
+    rich["descent_metric"] = H + GL + "table(pos) cB cA {shift.y = descent} / _ _; endtable;\n"
+    rich["attach_at_metrics_nowith"] = H + GL + "table(pos) cA cB {attach {to = @1; at {x = advancewidth; y = bb.height / 2}}} / _ ^ _; endtable;\n"
     rich["lb_items"] = H + GL + "table(sub) cA > cB / # _; cB > cA / _ #; cA cB > cB cA / # _ _ #; endtable;\n"
     rich["justification_pass"] = H + "table(glyph) cA = glyphid(3..6) {justify.0.stretch = 100m; justify.0.weight = 2}; cK = glyphid(7); cB = glyphid(8); endtable;\ntable(sub) cA > cB; endtable;\ntable(justification) cA _ > @1 cK:1; endtable;\ntable(pos) cB {advance.x += 5m}; endtable;\n"
     rich["features_hidden_ids"] = (H + GL + 'table(feature) fa { id = 2000; id.hidden = "smcp"; name.1033 = string("A"); default = 0; settings { x0 { value = 0; name.1033 = string("x0"); } '
@@ -111,7 +118,9 @@ def run(tier, seed, replay=None):
             o = harness.drive([r], ["c03"])[0]
             bad = [l for l in o["c03"] if not l.startswith("ok ")] + [l for l in o["load"][:1] if not l.startswith("ok")]
             f = gr2.Face(os.path.join(r["dir"], "out.ttf"))
-            engine_ok = f.ok() and f.shape([0x61, 0x62, 0x63]) is not None
+            # (several texts: a rule's code runs only when the rule fires)
+            engine_ok = f.ok() and all(f.shape(t) is not None for t in ([0x61, 0x62, 0x63], [0x62, 0x66], [0x66, 0x62], [0x62, 0x66, 0x62, 0x66],
+                                                                         list(range(0x61, 0x7B)), list(range(0x7A, 0x60, -1))))
             f.close()
             if not engine_ok:
                 bad.append("libgraphite2 rejects the font (gr_make_file_face/gr_make_seg failed)")
@@ -120,6 +129,8 @@ def run(tier, seed, replay=None):
                 sig = None
                 if rname == "justification_pass" and bad == ["libgraphite2 rejects the font (gr_make_file_face/gr_make_seg failed)"]:
                     sig = "C03:font-with-a-justification-pass-rejected-by-libgraphite2"
+                if rname == "descent_metric" and bad == ["libgraphite2 rejects the font (gr_make_file_face/gr_make_seg failed)"]:
+                    sig = "C03:font-using-the-descent-glyph-metric-rejected-by-libgraphite2"
                 rep.violation(nm, {"case": nm, "options": opts, "checker_lines": bad, "gdl": rich[rname],
                                    "meaning": "out.ttf written with exit status 0 is not well-formed at the named table/offset/code block",
                                    "rerun": "cd %s && printf 'font out.ttf\\nc03\\n' | %s" % (d, common.grcv_path())}, signature=sig)
